@@ -94,41 +94,48 @@ namespace Pistache::Tcp
                 handleNotify();
             }
 
-            else if (entry.isReadable())
+            else
             {
-                auto tag = entry.getTag();
-                if (isPeerFd(tag))
+                // With edge-triggered notification an event that reports a socket
+                // writable and readable at once is not repeated, so both have to be
+                // handled. Writable first: reading may remove the peer.
+                if (entry.isWritable())
                 {
-                    auto& peer = getPeer(tag);
-                    handleIncoming(peer);
-                }
-                else if (isTimerFd(tag))
-                {
-                    auto it      = timers.find(static_cast<decltype(timers)::key_type>(tag.value()));
-                    auto& entry_ = it->second;
-                    handleTimer(std::move(entry_));
-                    timers.erase(it->first);
-                }
-            }
-            else if (entry.isWritable())
-            {
-                auto tag = entry.getTag();
-                auto fd  = static_cast<Fd>(tag.value());
+                    auto tag = entry.getTag();
+                    auto fd  = static_cast<Fd>(tag.value());
 
-                {
-                    Guard guard(toWriteLock);
-                    auto it = toWrite.find(fd);
-                    if (it == std::end(toWrite))
                     {
-                        throw std::runtime_error(
-                            "Assertion Error: could not find write data");
+                        Guard guard(toWriteLock);
+                        auto it = toWrite.find(fd);
+                        if (it == std::end(toWrite))
+                        {
+                            throw std::runtime_error(
+                                "Assertion Error: could not find write data");
+                        }
+                    }
+
+                    reactor()->modifyFd(key(), fd, NotifyOn::Read, Polling::Mode::Edge);
+
+                    // Try to drain the queue
+                    asyncWriteImpl(fd);
+                }
+
+                if (entry.isReadable())
+                {
+                    auto tag = entry.getTag();
+                    if (isPeerFd(tag))
+                    {
+                        auto& peer = getPeer(tag);
+                        handleIncoming(peer);
+                    }
+                    else if (isTimerFd(tag))
+                    {
+                        auto it      = timers.find(static_cast<decltype(timers)::key_type>(tag.value()));
+                        auto& entry_ = it->second;
+                        handleTimer(std::move(entry_));
+                        timers.erase(it->first);
                     }
                 }
-
-                reactor()->modifyFd(key(), fd, NotifyOn::Read, Polling::Mode::Edge);
-
-                // Try to drain the queue
-                asyncWriteImpl(fd);
             }
         }
     }
